@@ -1,7 +1,9 @@
 """Growth beyond the listed properties: the public DenseOutput container.
 
 design       : DenseApi.tla with Dev = {} satisfies AnsweredByContainingPiece, TimesPairWithPieces, BoundsAreTheCoveredRange on every
-               operation sequence to length 4; each deviation the real class has (DenseModel!CodeDev) violates its invariant.
+               operation sequence to length 4 - pieces may continue in either direction (integrate() calls that turn round); each
+               deviation the real class has (DenseModel!CodeDev) violates its invariant, and so does the lookup the class had before
+               repair 654424a (bisectAfterTurn).
 spec -> code : every operation sequence to length 3 under CodeDev (9644 histories, TLC-generated with expected outcomes) is replayed on
                a real DenseOutput whose pieces are the lines y = 100 id + t.
 code -> spec : the recorded traces plus random longer ones are validated by DenseApiJudge.tla (one TLC state per call; the container's
@@ -80,6 +82,7 @@ def random_histories(n, seed, length=12):
     for i in range(n):
         ops = []
         up = rnd.random() < 0.5
+        turning = rnd.random() < 0.5              # half of the histories change direction now and then
         cur = None
         for _ in range(rnd.randint(5, length)):
             k = rnd.choice(["add", "add", "add", "remove", "eval", "evalv", "len", "tmin", "tmax", "ctor", "new"])
@@ -95,6 +98,8 @@ def random_histories(n, seed, length=12):
                 ops.append({"op": "ctor", "times": ts}); cur = ts[-1]
             elif k == "add":
                 a = rnd.randint(-4, 4) if cur is None else cur
+                if turning and rnd.random() < 0.3:
+                    up = not up                   # the integration turns round
                 b = a + rnd.choice((1, 2)) * (1 if up else -1)
                 ops.append({"op": "add", "a": a, "b": b}); cur = b
             elif k == "remove":
@@ -132,6 +137,7 @@ def check(tier="quick", seed=0):
     rep["model"] = {"module": "DenseApi", "states": r.generated, "checked": ["AnsweredByContainingPiece", "TimesPairWithPieces", "BoundsAreTheCoveredRange"]}
     core.model_check("DenseApiMC", "DenseApi_devCtor", expect_violation="TimesPairWithPieces")
     core.model_check("DenseApiMC", "DenseApi_devBounds", expect_violation="BoundsAreTheCoveredRange")
+    core.model_check("DenseApiMC", "DenseApi_devTurn", expect_violation="AnsweredByContainingPiece")    # the lookup before repair 654424a
     gen, _ = core.generate("DenseApiMC", "DenseApi_gen", name="DenseApi_gen")
     hs = [{"id": "gen%05d" % i, "ops": [e["o"] for e in h], "expect": [e["out"] for e in h]} for i, h in enumerate(gen["histories"])]
     traces = core.pool_map(_job, hs, chunksize=64)
